@@ -600,6 +600,8 @@ fn solo_load(addr: usize, _w: u8, _o: O, real: u64) -> u64 {
                 1 => if k == 0 { g0 } else { (g0 + 1) & 0xffff },
                 // frozen odd (second call of a scenario)
                 2 => (g0 + 1) & 0xffff,
+                // stable at a new even, non-zero value (third call: the writer, or its successor, is quiet)
+                4 => { let e = ((g0 / 2) * 2 + 2 * 20011) & 0xffff; if e == 0 { 2 } else { e } }
                 // alternating: odd (update in flight), then a new even value, then odd again, …
                 3 => if k == 0 { g0 } else if k % 2 == 1 { (g0 + 1) & 0xffff } else { (g0 + 2 * ((k / 2) % SOLO_PERIOD.load(O::Relaxed) + 1)) & 0xffff },
                 _ => (g0 + 2 * (k % SOLO_PERIOD.load(O::Relaxed))) & 0xffff,
@@ -639,12 +641,16 @@ pub fn exec_slx(toks: &[&str]) -> String {
     // second call: generation frozen odd
     SOLO_MODE.store(2, O::Relaxed);
     let r2 = guarded(std::panic::AssertUnwindSafe(|| reader.snapshot().map(|c| cells_of_record(c))));
+    // third call: the generation is stable at a new even value
+    SOLO_MODE.store(4, O::Relaxed);
+    let r3 = guarded(std::panic::AssertUnwindSafe(|| reader.snapshot().map(|c| cells_of_record(c))));
     *verif_shim::HOOKS.write().unwrap() = None;
     let second = match r2 { Ok(Ok(c)) => format!("then:{}", cells_txt(c)), Ok(Err(_)) => "then:err".into(), Err(()) => "then:unbounded".into() };
+    let third = match r3 { Ok(Ok(c)) => format!("final:{}", cells_txt(c)), Ok(Err(_)) => "final:err".into(), Err(()) => "final:unbounded".into() };
     match r {
-        Ok(Ok(c)) => format!("ok {} {} {}", cells_txt(c), counts, second),
-        Ok(Err(_)) => format!("err {} {}", counts, second),
-        Err(()) => format!("unbounded {} {}", counts, second),
+        Ok(Ok(c)) => format!("ok {} {} {} {}", cells_txt(c), counts, second, third),
+        Ok(Err(_)) => format!("err {} {} {}", counts, second, third),
+        Err(()) => format!("unbounded {} {} {}", counts, second, third),
     }
 }
 
